@@ -1,7 +1,7 @@
 """Property -> rule list, with the text that goes into the evidence."""
 import importlib
 
-RULE_MODULES = ["su", "w"]
+RULE_MODULES = ["su", "w", "xn"]
 
 COMMON_ASSUME = [
     "clang 14's parse, constant evaluation and CFG of each unit are faithful to the C semantics",
@@ -21,6 +21,21 @@ def all_rules():
 PROPS = {
     "C01": {
         "rules": ["W1", "W2", "W3", "W7"],
+        "explanation": "wip",
+        "assumptions": COMMON_ASSUME,
+    },
+    "C02": {
+        "rules": ["W6", "S1", "S2", "S3", "N2"],
+        "explanation": "wip",
+        "assumptions": COMMON_ASSUME,
+    },
+    "C06": {
+        "rules": ["X1", "X2", "X3", "X4", "U1"],
+        "explanation": "wip",
+        "assumptions": COMMON_ASSUME,
+    },
+    "C20": {
+        "rules": ["N1", "N2", "N3", "N4", "N5", "S3"],
         "explanation": "wip",
         "assumptions": COMMON_ASSUME,
     },
